@@ -29,3 +29,8 @@ Definition obs_fls_code (v : list Z) (first : Z) (tab : list Z) : list Z :=
 
 Definition obs_offset2line (offset : Z) (ls : list (Z * Z)) : list Z :=
   match offset2line offset ls with Some l => [0; l] | None => [1; 99] end.
+
+From Xdis Require Import Model.ExcTable.
+Definition obs_exc (tab : list Z) : list Z :=
+  let es := parse_exception_table tab in
+  [0; zlen es] ++ flat_map (fun '(s, e, t, d, l) => [s; e; t; d; if l : bool then 1 else 0]) es.
